@@ -66,7 +66,10 @@ def r1(chk):
     fp = repo.fn(ATTR, "parse", impl="OptionalParenthesizedTokenStream")
     peeks = [render(m["args"][0]) for m in method_calls(fp.body, "peek")]
     macs = [n["last"] for n in walk(fp.body) if n["k"] == "Macro"]
-    chk.shape("R1", "OptionalParenthesizedTokenStream::parse", peeks == ["Paren"] and macs == ["parenthesized"], bool(set(peeks) & {"Brace", "Bracket"}) or bool(set(macs) & {"braced", "bracketed"}), ATTR, fp.line,
+    # recognised-bad: another delimiter, or the group is demanded without looking for `(` first (inside #[o2o(a, b(..))] an instruction
+    # without arguments is followed by `,`: only a Paren peek tells "no group" from "group")
+    no_peek = not peeks and macs == ["parenthesized"]
+    chk.shape("R1", "OptionalParenthesizedTokenStream::parse", peeks == ["Paren"] and macs == ["parenthesized"], bool(set(peeks) & {"Brace", "Bracket"}) or bool(set(macs) & {"braced", "bracketed"}) or no_peek, ATTR, fp.line,
               "argument group must be exactly one optional parenthesised group", found={"peek": peeks, "macros": macs})
 
 
